@@ -54,7 +54,14 @@ def strat_case(draw, tier):
     while max_template_size(kind, cap) > n:
         cap -= 1
     nbins_max = draw(st.integers(2, max(2, cap)))
-    spacing = draw(st.sampled_from([1.1, 1.25, 1.5, 2.0, 1.75]))
+    # (a spacing factor of 1 - every width - is accepted for boxcar banks only; the library refuses it for the others)
+    spacing = draw(st.sampled_from([1.1, 1.25, 1.5, 2.0, 1.75] + ([1.0] if kind == "boxcar" else [])))
+    if draw(st.integers(0, 5)) == 0:
+        # the smallest series, with boxcar banks that reach the length of the data (every width when spacing <= 1)
+        n = draw(st.integers(4, 31))
+        kind = "boxcar"
+        nbins_max = draw(st.one_of(st.just(n), st.integers(2, n)))
+        spacing = draw(st.sampled_from([1.0, 1.0, 1.1, 1.5]))
     pulse = draw(st.sampled_from(["none", "mid", "left_edge", "right_edge", "any"]))
     w = draw(st.integers(1, max(1, min(nbins_max, n // 4))))
     if pulse == "left_edge":
